@@ -719,7 +719,7 @@ def shard(arg):
 
 def run(ctx):
     nsh = 16
-    per = ctx.n(250, 3000)
+    per = ctx.n(200, 3000)
     res = Result()
     for r in pmap('harness.props.c04', 'shard', [(ctx.seed, i, per, True) for i in range(nsh)]):
         res.merge(r)
